@@ -449,172 +449,203 @@ fn nz_scalar(b: &[u8]) -> Option<Scalar> {
 
 // ================================================================== (a) wire formats
 //
-// SPEC harnesses: for ALL byte strings b of length ENC_LEN:
+// SPEC harnesses (one per type): for ALL byte strings b of length ENC_LEN:
 //   decode(b) is Some  <=>  every component decodes (and identifiers / keys are non-zero),
 //   the fields of decode(b) are the component decodings, and encode(decode(b)) == b.
 // Together with the bijectivity of the component codecs (stub contract) this is
 // "decode(encode(x)) == x and encode(decode(b)) == b".
 
-//@harness verif_frost_@S@_spec_scalars 180
+//@harness verif_frost_@S@_spec_nonce 180
 {
-    // Nonce, SignatureShare, GroupPrivateKey
     let b: [u8; 3 * NS] = kani::any();
-    {
-        let r = Nonce::decode(&b);
-        let i = scalar_decode(&b[0..NS]);
-        let h = scalar_decode(&b[NS..2 * NS]);
-        let k = scalar_decode(&b[2 * NS..3 * NS]);
-        let exp = match (i, h, k) {
-            (Some(i), Some(_), Some(_)) => i.iszero() == 0,
-            _ => false,
-        };
-        assert!(r.is_some() == exp);
-        if let Some(x) = r {
-            assert!(seq(x.ident, i.unwrap()) && seq(x.hiding, h.unwrap()) && seq(x.binding, k.unwrap()));
-            assert!(bytes_eq(&x.encode(), &b));
-        }
-        kani::cover!(r.is_some());
-        kani::cover!(r.is_none() && i.is_some() && h.is_some() && k.is_some());
-        kani::cover!(i.is_none());
+    let r = Nonce::decode(&b);
+    let i = scalar_decode(&b[0..NS]);
+    let h = scalar_decode(&b[NS..2 * NS]);
+    let k = scalar_decode(&b[2 * NS..3 * NS]);
+    let exp = match (i, h, k) {
+        (Some(i), Some(_), Some(_)) => i.iszero() == 0,
+        _ => false,
+    };
+    assert!(r.is_some() == exp);
+    if let Some(x) = r {
+        assert!(seq(x.ident, i.unwrap()) && seq(x.hiding, h.unwrap()) && seq(x.binding, k.unwrap()));
+        assert!(bytes_eq(&x.encode(), &b));
     }
-    {
-        let b = &b[0..2 * NS];
-        let r = SignatureShare::decode(b);
-        let i = scalar_decode(&b[0..NS]);
-        let z = scalar_decode(&b[NS..2 * NS]);
-        let exp = match (i, z) {
-            (Some(i), Some(_)) => i.iszero() == 0,
-            _ => false,
-        };
-        assert!(r.is_some() == exp);
-        if let Some(x) = r {
-            assert!(seq(x.ident, i.unwrap()) && seq(x.zi, z.unwrap()));
-            assert!(bytes_eq(&x.encode(), b));
-        }
-        kani::cover!(r.is_some());
-        kani::cover!(r.is_none() && z.is_some());
-    }
-    {
-        let b = &b[0..NS];
-        let r = GroupPrivateKey::decode(b);
-        let s = scalar_decode(b);
-        let exp = match s {
-            Some(s) => s.iszero() == 0,
-            _ => false,
-        };
-        assert!(r.is_some() == exp);
-        if let Some(x) = r {
-            assert!(seq(x.sk, s.unwrap()));
-            assert!(bytes_eq(&x.encode(), b));
-            // cached public key = encoding of [sk]B
-            assert!(peq(x.pk, Point::mulgen(&x.sk)));
-            assert!(bytes_eq(&x.pk_enc, &point_encode(x.pk)));
-            let gp = x.get_public_key();
-            assert!(peq(gp.pk, x.pk) && bytes_eq(&gp.pk_enc, &x.pk_enc));
-        }
-        kani::cover!(r.is_some());
-        kani::cover!(r.is_none() && s.is_some());
-    }
+    kani::cover!(r.is_some());
+    kani::cover!(r.is_none() && i.is_some() && h.is_some() && k.is_some());
 }
 
-//@harness verif_frost_@S@_spec_points 180
+//@harness verif_frost_@S@_spec_sigshare 180
 {
-    // GroupPublicKey, SignerPublicKey, Commitment, Signature, SignerPrivateKeyShare
-    let b: [u8; 2 * NS + 2 * NE] = kani::any();
-    {
-        let b = &b[0..NE];
-        let r = GroupPublicKey::decode(b);
-        let p = point_decode(b);
-        assert!(r.is_some() == p.is_some());
-        if let Some(x) = r {
-            assert!(peq(x.pk, p.unwrap()));
-            assert!(bytes_eq(&x.pk_enc, b));
-            assert!(bytes_eq(&x.encode(), b));
-        }
-        kani::cover!(r.is_some());
-        kani::cover!(r.is_none());
+    let b: [u8; 2 * NS] = kani::any();
+    let r = SignatureShare::decode(&b);
+    let i = scalar_decode(&b[0..NS]);
+    let z = scalar_decode(&b[NS..2 * NS]);
+    let exp = match (i, z) {
+        (Some(i), Some(_)) => i.iszero() == 0,
+        _ => false,
+    };
+    assert!(r.is_some() == exp);
+    if let Some(x) = r {
+        assert!(seq(x.ident, i.unwrap()) && seq(x.zi, z.unwrap()));
+        assert!(bytes_eq(&x.encode(), &b));
     }
-    {
-        let b = &b[0..NS + NE];
-        let r = SignerPublicKey::decode(b);
-        let i = scalar_decode(&b[0..NS]);
-        let p = point_decode(&b[NS..NS + NE]);
-        let exp = match (i, p) {
-            (Some(i), Some(_)) => i.iszero() == 0,
-            _ => false,
-        };
-        assert!(r.is_some() == exp);
-        if let Some(x) = r {
-            assert!(seq(x.ident, i.unwrap()) && peq(x.pk, p.unwrap()));
-            assert!(bytes_eq(&x.encode(), b));
-        }
-        kani::cover!(r.is_some());
-        kani::cover!(r.is_none() && i.is_some() && p.is_some());
-    }
-    {
-        let b = &b[0..NS + 2 * NE];
-        let r = Commitment::decode(b);
-        let i = scalar_decode(&b[0..NS]);
-        let h = point_decode(&b[NS..NS + NE]);
-        let k = point_decode(&b[NS + NE..NS + 2 * NE]);
-        let exp = match (i, h, k) {
-            (Some(i), Some(_), Some(_)) => i.iszero() == 0,
-            _ => false,
-        };
-        assert!(r.is_some() == exp);
-        if let Some(x) = r {
-            assert!(seq(x.ident, i.unwrap()) && peq(x.hiding, h.unwrap()) && peq(x.binding, k.unwrap()));
-            assert!(bytes_eq(&x.encode(), b));
-            assert!(!x.is_invalid());
-        }
-        kani::cover!(r.is_some());
-        kani::cover!(r.is_none() && i.is_some() && h.is_some() && k.is_some());
-        kani::cover!(r.is_none() && k.is_none());
-    }
-    {
-        let b = &b[0..NE + NS];
-        let r = Signature::decode(b);
-        let p = point_decode(&b[0..NE]);
-        let z = scalar_decode(&b[NE..NE + NS]);
-        assert!(r.is_some() == (p.is_some() && z.is_some()));
-        if let Some(x) = r {
-            assert!(peq(x.R, p.unwrap()) && seq(x.z, z.unwrap()));
-            assert!(bytes_eq(&x.encode(), b));
-        }
-        kani::cover!(r.is_some());
-        kani::cover!(r.is_none() && p.is_some());
-    }
-    {
-        let b = &b[0..2 * NS + NE];
-        let r = SignerPrivateKeyShare::decode(b);
-        let i = scalar_decode(&b[0..NS]);
-        let s = scalar_decode(&b[NS..2 * NS]);
-        let g = GroupPublicKey::decode(&b[2 * NS..2 * NS + NE]);
-        let exp = match (i, s, g) {
-            (Some(i), Some(s), Some(_)) => i.iszero() == 0 && s.iszero() == 0,
-            _ => false,
-        };
-        assert!(r.is_some() == exp);
-        if let Some(x) = r {
-            let g = g.unwrap();
-            assert!(seq(x.ident, i.unwrap()) && seq(x.sk, s.unwrap()));
-            assert!(peq(x.group_pk.pk, g.pk) && bytes_eq(&x.group_pk.pk_enc, &g.pk_enc));
-            assert!(peq(x.pk, Point::mulgen(&x.sk)));
-            assert!(bytes_eq(&x.encode(), b));
-            let sp = x.get_public_key();
-            assert!(seq(sp.ident, x.ident) && peq(sp.pk, x.pk));
-        }
-        kani::cover!(r.is_some());
-        kani::cover!(r.is_none() && i.is_some() && s.is_some() && g.is_some());
-    }
+    kani::cover!(r.is_some());
+    kani::cover!(r.is_none() && i.is_some() && z.is_some());
 }
 
-// ROUND-TRIP harness on values built through the real API only from canonical scalars
+//@harness verif_frost_@S@_spec_groupsk 180
+{
+    let b: [u8; NS] = kani::any();
+    let r = GroupPrivateKey::decode(&b);
+    let s = scalar_decode(&b);
+    let exp = match s {
+        Some(s) => s.iszero() == 0,
+        _ => false,
+    };
+    assert!(r.is_some() == exp);
+    if let Some(x) = r {
+        assert!(seq(x.sk, s.unwrap()));
+        assert!(bytes_eq(&x.encode(), &b));
+        // cached public key = encoding of [sk]B
+        assert!(peq(x.pk, Point::mulgen(&x.sk)));
+        assert!(bytes_eq(&x.pk_enc, &point_encode(x.pk)));
+        let gp = x.get_public_key();
+        assert!(peq(gp.pk, x.pk) && bytes_eq(&gp.pk_enc, &x.pk_enc));
+    }
+    kani::cover!(r.is_some());
+    kani::cover!(r.is_none() && s.is_some());
+}
+
+//@harness verif_frost_@S@_spec_grouppk 180
+{
+    let b: [u8; NE] = kani::any();
+    let r = GroupPublicKey::decode(&b);
+    let p = point_decode(&b);
+    assert!(r.is_some() == p.is_some());
+    if let Some(x) = r {
+        assert!(peq(x.pk, p.unwrap()));
+        assert!(bytes_eq(&x.pk_enc, &b));
+        assert!(bytes_eq(&x.encode(), &b));
+    }
+    kani::cover!(r.is_some());
+    kani::cover!(r.is_none());
+}
+
+//@harness verif_frost_@S@_spec_signerpk 180
+{
+    let b: [u8; NS + NE] = kani::any();
+    let r = SignerPublicKey::decode(&b);
+    let i = scalar_decode(&b[0..NS]);
+    let p = point_decode(&b[NS..NS + NE]);
+    let exp = match (i, p) {
+        (Some(i), Some(_)) => i.iszero() == 0,
+        _ => false,
+    };
+    assert!(r.is_some() == exp);
+    if let Some(x) = r {
+        assert!(seq(x.ident, i.unwrap()) && peq(x.pk, p.unwrap()));
+        assert!(bytes_eq(&x.encode(), &b));
+    }
+    kani::cover!(r.is_some());
+    kani::cover!(r.is_none() && i.is_some() && p.is_some());
+}
+
+//@harness verif_frost_@S@_spec_commitment 180
+{
+    let b: [u8; NS + 2 * NE] = kani::any();
+    let r = Commitment::decode(&b);
+    let i = scalar_decode(&b[0..NS]);
+    let h = point_decode(&b[NS..NS + NE]);
+    let k = point_decode(&b[NS + NE..NS + 2 * NE]);
+    let exp = match (i, h, k) {
+        (Some(i), Some(_), Some(_)) => i.iszero() == 0,
+        _ => false,
+    };
+    assert!(r.is_some() == exp);
+    if let Some(x) = r {
+        assert!(seq(x.ident, i.unwrap()) && peq(x.hiding, h.unwrap()) && peq(x.binding, k.unwrap()));
+        assert!(bytes_eq(&x.encode(), &b));
+        assert!(!x.is_invalid());
+    }
+    kani::cover!(r.is_some());
+    kani::cover!(r.is_none() && i.is_some() && h.is_some() && k.is_some());
+}
+
+//@harness verif_frost_@S@_spec_signature 180
+{
+    let b: [u8; NE + NS] = kani::any();
+    let r = Signature::decode(&b);
+    let p = point_decode(&b[0..NE]);
+    let z = scalar_decode(&b[NE..NE + NS]);
+    assert!(r.is_some() == (p.is_some() && z.is_some()));
+    if let Some(x) = r {
+        assert!(peq(x.R, p.unwrap()) && seq(x.z, z.unwrap()));
+        assert!(bytes_eq(&x.encode(), &b));
+    }
+    kani::cover!(r.is_some());
+    kani::cover!(r.is_none() && p.is_some());
+}
+
+//@harness verif_frost_@S@_spec_keyshare 180
+{
+    let b: [u8; 2 * NS + NE] = kani::any();
+    let r = SignerPrivateKeyShare::decode(&b);
+    let i = scalar_decode(&b[0..NS]);
+    let s = scalar_decode(&b[NS..2 * NS]);
+    let g = GroupPublicKey::decode(&b[2 * NS..2 * NS + NE]);
+    let exp = match (i, s, g) {
+        (Some(i), Some(s), Some(_)) => i.iszero() == 0 && s.iszero() == 0,
+        _ => false,
+    };
+    assert!(r.is_some() == exp);
+    if let Some(x) = r {
+        let g = g.unwrap();
+        assert!(seq(x.ident, i.unwrap()) && seq(x.sk, s.unwrap()));
+        assert!(peq(x.group_pk.pk, g.pk) && bytes_eq(&x.group_pk.pk_enc, &g.pk_enc));
+        assert!(peq(x.pk, Point::mulgen(&x.sk)));
+        assert!(bytes_eq(&x.encode(), &b));
+        let sp = x.get_public_key();
+        assert!(seq(sp.ident, x.ident) && peq(sp.pk, x.pk));
+    }
+    kani::cover!(r.is_some());
+    kani::cover!(r.is_none() && i.is_some() && s.is_some() && g.is_some());
+}
+
+// ROUND-TRIP harnesses on values built through the real API only from canonical scalars
 // (points are [k]B), so that a counterexample replays natively:
 //   for all such x: decode(encode(x)) is Some(y) with y == x field-wise, and encode(x) is the
 //   concatenation of the component encodings in the order of the FROST draft.
 
-//@harness verif_frost_@S@_roundtrip 180
+//@harness verif_frost_@S@_rt_scalars 180
+{
+    let b: [u8; 3 * NS] = kani::any();
+    let id = match nz_scalar(&b[0..NS]) { Some(s) => s, None => return };
+    let s1 = match scalar_decode(&b[NS..2 * NS]) { Some(s) => s, None => return };
+    let s3 = match scalar_decode(&b[2 * NS..3 * NS]) { Some(s) => s, None => return };
+    let eid = scalar_encode(id);
+    let es1 = scalar_encode(s1);
+    let es3 = scalar_encode(s3);
+    // the scalar codec itself round-trips on these values (stub contract / native fact)
+    assert!(bytes_eq(&eid, &b[0..NS]) && bytes_eq(&es3, &b[2 * NS..3 * NS]));
+    {
+        let x = Nonce { ident: id, hiding: s1, binding: s3 };
+        let e = x.encode();
+        assert!(bytes_eq(&e[0..NS], &eid) && bytes_eq(&e[NS..2 * NS], &es1) && bytes_eq(&e[2 * NS..3 * NS], &es3));
+        let y = Nonce::decode(&e).unwrap();
+        assert!(seq(y.ident, id) && seq(y.hiding, s1) && seq(y.binding, s3));
+    }
+    {
+        let x = SignatureShare { ident: id, zi: s3 };
+        let e = x.encode();
+        assert!(bytes_eq(&e[0..NS], &eid) && bytes_eq(&e[NS..2 * NS], &es3));
+        let y = SignatureShare::decode(&e).unwrap();
+        assert!(seq(y.ident, id) && seq(y.zi, s3));
+    }
+    kani::cover!(true);
+}
+
+//@harness verif_frost_@S@_rt_points 180
 {
     let b: [u8; 4 * NS] = kani::any();
     let id = match nz_scalar(&b[0..NS]) { Some(s) => s, None => return };
@@ -624,36 +655,13 @@ fn nz_scalar(b: &[u8]) -> Option<Scalar> {
     let p1 = Point::mulgen(&s1);
     let p2 = Point::mulgen(&s2);
     let eid = scalar_encode(id);
-    let es1 = scalar_encode(s1);
     let es3 = scalar_encode(s3);
     let ep1 = point_encode(p1);
     let ep2 = point_encode(p2);
-    // the component codecs themselves round-trip on these values (stub contract / native fact)
-    assert!(bytes_eq(&eid, &b[0..NS]) && bytes_eq(&es3, &b[3 * NS..4 * NS]));
     {
-        let x = Nonce { ident: id, hiding: s1, binding: s3 };
-        let e = x.encode();
-        assert!(bytes_eq(&e[0..NS], &eid) && bytes_eq(&e[NS..2 * NS], &es1) && bytes_eq(&e[2 * NS..3 * NS], &es3));
-        let y = Nonce::decode(&e).unwrap();
-        assert!(seq(y.ident, id) && seq(y.hiding, s1) && seq(y.binding, s3));
+        let x = Nonce { ident: id, hiding: s1, binding: s2 };
         let c = x.get_commitment();
-        assert!(seq(c.ident, id) && peq(c.hiding, p1) && peq(c.binding, Point::mulgen(&s3)));
-    }
-    {
-        let x = SignatureShare { ident: id, zi: s3 };
-        let e = x.encode();
-        assert!(bytes_eq(&e[0..NS], &eid) && bytes_eq(&e[NS..2 * NS], &es3));
-        let y = SignatureShare::decode(&e).unwrap();
-        assert!(seq(y.ident, id) && seq(y.zi, s3));
-    }
-    let gsk = GroupPrivateKey::decode(&es1).unwrap();
-    assert!(bytes_eq(&gsk.encode(), &es1));
-    let gpk = gsk.get_public_key();
-    {
-        let e = gpk.encode();
-        assert!(bytes_eq(&e, &ep1));
-        let y = GroupPublicKey::decode(&e).unwrap();
-        assert!(peq(y.pk, p1) && bytes_eq(&y.pk_enc, &ep1));
+        assert!(seq(c.ident, id) && peq(c.hiding, p1) && peq(c.binding, p2));
     }
     {
         let x = SignerPublicKey { ident: id, pk: p2 };
@@ -677,6 +685,29 @@ fn nz_scalar(b: &[u8]) -> Option<Scalar> {
         let y = Signature::decode(&e).unwrap();
         assert!(peq(y.R, p2) && seq(y.z, s3));
     }
+    kani::cover!(true);
+}
+
+//@harness verif_frost_@S@_rt_keys 180
+{
+    let b: [u8; 3 * NS] = kani::any();
+    let id = match nz_scalar(&b[0..NS]) { Some(s) => s, None => return };
+    let s1 = match nz_scalar(&b[NS..2 * NS]) { Some(s) => s, None => return };
+    let s2 = match nz_scalar(&b[2 * NS..3 * NS]) { Some(s) => s, None => return };
+    let p1 = Point::mulgen(&s1);
+    let p2 = Point::mulgen(&s2);
+    let eid = scalar_encode(id);
+    let es1 = scalar_encode(s1);
+    let ep1 = point_encode(p1);
+    let gsk = GroupPrivateKey::decode(&es1).unwrap();
+    assert!(bytes_eq(&gsk.encode(), &es1));
+    let gpk = gsk.get_public_key();
+    {
+        let e = gpk.encode();
+        assert!(bytes_eq(&e, &ep1));
+        let y = GroupPublicKey::decode(&e).unwrap();
+        assert!(peq(y.pk, p1) && bytes_eq(&y.pk_enc, &ep1));
+    }
     {
         let x = SignerPrivateKeyShare { ident: id, sk: s2, pk: p2, group_pk: gpk };
         let e = x.encode();
@@ -691,7 +722,7 @@ fn nz_scalar(b: &[u8]) -> Option<Scalar> {
 
 // LENGTH harness: every decode function returns None on every length != ENC_LEN in
 // 0..=ENC_LEN+1 (bytes arbitrary), without panicking.  Lengths are concrete (loop bounds are
-// constants); the largest ENC_LEN is 2*NS+NE.
+// constants); the largest ENC_LEN is 2*NS+NE (171 for ed448), hence unwind 180.
 
 //@harness verif_frost_@S@_lengths 180
 {
@@ -751,49 +782,55 @@ fn nz_scalar(b: &[u8]) -> Option<Scalar> {
 
 const CL: usize = NS + 2 * NE;
 
-// Commitment::decode_list on n*CL bytes (n = 0..3 concrete): Some <=> n >= 2, every element
-// decodes, identifiers strictly ascending as integers (oracle: wire_lt on the wire bytes);
-// elements are the element decodings; encode_list(decode_list(b)) == b.
+// Commitment::decode_list on 2*CL bytes: Some <=> both elements decode and identifiers are
+// strictly ascending as integers (oracle: wire_lt on the wire bytes); elements are the element
+// decodings; encode_list(decode_list(b)) == b.  Lists of 0 and 1 element are rejected.
 
-//@harness verif_frost_@S@_clist_spec 180
+//@harness verif_frost_@S@_clist2 350
 {
-    let b: [u8; 3 * CL] = kani::any();
+    let b: [u8; 2 * CL] = kani::any();
     assert!(Commitment::decode_list(&b[..0]).is_none());
     assert!(Commitment::decode_list(&b[..CL]).is_none());
+    let c0 = Commitment::decode(&b[0..CL]);
+    let c1 = Commitment::decode(&b[CL..2 * CL]);
+    let lt01 = wire_lt(&b[0..NS], &b[CL..CL + NS]);
+    let r = Commitment::decode_list(&b);
+    let exp = c0.is_some() && c1.is_some() && lt01;
+    assert!(r.is_some() == exp);
+    if let Some(ref v) = r {
+        assert!(v.len() == 2);
+        let (c0, c1) = (c0.unwrap(), c1.unwrap());
+        assert!(seq(v[0].ident, c0.ident) && peq(v[0].hiding, c0.hiding) && peq(v[0].binding, c0.binding));
+        assert!(seq(v[1].ident, c1.ident) && peq(v[1].hiding, c1.hiding) && peq(v[1].binding, c1.binding));
+        let e = Commitment::encode_list(v);
+        assert!(bytes_eq(&e, &b));
+    }
+    kani::cover!(r.is_some());
+    kani::cover!(r.is_none() && c0.is_some() && c1.is_some());
+}
+
+// three elements: ordering is checked between every adjacent pair
+
+//@harness verif_frost_@S@_clist3 520
+{
+    let b: [u8; 3 * CL] = kani::any();
     let c0 = Commitment::decode(&b[0..CL]);
     let c1 = Commitment::decode(&b[CL..2 * CL]);
     let c2 = Commitment::decode(&b[2 * CL..3 * CL]);
     let lt01 = wire_lt(&b[0..NS], &b[CL..CL + NS]);
     let lt12 = wire_lt(&b[CL..CL + NS], &b[2 * CL..2 * CL + NS]);
-    {
-        let r = Commitment::decode_list(&b[..2 * CL]);
-        let exp = c0.is_some() && c1.is_some() && lt01;
-        assert!(r.is_some() == exp);
-        if let Some(ref v) = r {
-            assert!(v.len() == 2);
-            let (c0, c1) = (c0.unwrap(), c1.unwrap());
-            assert!(seq(v[0].ident, c0.ident) && peq(v[0].hiding, c0.hiding) && peq(v[0].binding, c0.binding));
-            assert!(seq(v[1].ident, c1.ident) && peq(v[1].hiding, c1.hiding) && peq(v[1].binding, c1.binding));
-            let e = Commitment::encode_list(&v);
-            assert!(bytes_eq(&e, &b[..2 * CL]));
-        }
-        kani::cover!(r.is_some());
-        kani::cover!(r.is_none() && c0.is_some() && c1.is_some());
+    let r = Commitment::decode_list(&b);
+    let exp = c0.is_some() && c1.is_some() && c2.is_some() && lt01 && lt12;
+    assert!(r.is_some() == exp);
+    if let Some(ref v) = r {
+        assert!(v.len() == 3);
+        let c2 = c2.unwrap();
+        assert!(seq(v[2].ident, c2.ident) && peq(v[2].hiding, c2.hiding) && peq(v[2].binding, c2.binding));
+        let e = Commitment::encode_list(v);
+        assert!(bytes_eq(&e, &b));
     }
-    {
-        let r = Commitment::decode_list(&b[..3 * CL]);
-        let exp = c0.is_some() && c1.is_some() && c2.is_some() && lt01 && lt12;
-        assert!(r.is_some() == exp);
-        if let Some(ref v) = r {
-            assert!(v.len() == 3);
-            let c2 = c2.unwrap();
-            assert!(seq(v[2].ident, c2.ident) && peq(v[2].hiding, c2.hiding) && peq(v[2].binding, c2.binding));
-            let e = Commitment::encode_list(&v);
-            assert!(bytes_eq(&e, &b[..3 * CL]));
-        }
-        kani::cover!(r.is_some());
-        kani::cover!(r.is_none() && c0.is_some() && c1.is_some() && c2.is_some() && lt01);
-    }
+    kani::cover!(r.is_some());
+    kani::cover!(r.is_none() && c0.is_some() && c1.is_some() && c2.is_some() && lt01);
 }
 
 // lengths that are not a multiple of the element length (symbolic length, it only feeds the
@@ -810,8 +847,7 @@ const CL: usize = NS + 2 * NE;
     if n % NE != 0 {
         assert!(VSSElement::decode_list(&b[..n]).is_none());
     }
-    kani::cover!(n % CL != 0 && n > 2 * CL);
-    kani::cover!(n % NE != 0 && n > 2 * NE);
+    kani::cover!(n % CL != 0 && n % NE != 0 && n > 2 * CL);
     assert!(Commitment::encode_list(&[]).len() == 0);
     assert!(VSSElement::encode_list(&[]).len() == 0);
 }
@@ -819,7 +855,7 @@ const CL: usize = NS + 2 * NE;
 // VSSElement::decode_list on n*NE bytes (n = 0..3): Some <=> n >= 2 and every point decodes;
 // elements are the point decodings; encode_list(decode_list(b)) == b.
 
-//@harness verif_frost_@S@_vlist_spec 180
+//@harness verif_frost_@S@_vlist 180
 {
     let b: [u8; 3 * NE] = kani::any();
     assert!(VSSElement::decode_list(&b[..0]).is_none());
@@ -833,10 +869,8 @@ const CL: usize = NS + 2 * NE;
         if let Some(ref v) = r {
             assert!(v.len() == 2);
             assert!(peq(v[0].0, p0.unwrap()) && peq(v[1].0, p1.unwrap()));
-            assert!(bytes_eq(&VSSElement::encode_list(&v), &b[..2 * NE]));
+            assert!(bytes_eq(&VSSElement::encode_list(v), &b[..2 * NE]));
         }
-        kani::cover!(r.is_some());
-        kani::cover!(r.is_none());
     }
     {
         let r = VSSElement::decode_list(&b[..3 * NE]);
@@ -844,7 +878,7 @@ const CL: usize = NS + 2 * NE;
         if let Some(ref v) = r {
             assert!(v.len() == 3);
             assert!(peq(v[0].0, p0.unwrap()) && peq(v[1].0, p1.unwrap()) && peq(v[2].0, p2.unwrap()));
-            assert!(bytes_eq(&VSSElement::encode_list(&v), &b[..3 * NE]));
+            assert!(bytes_eq(&VSSElement::encode_list(v), &b[..3 * NE]));
         }
         kani::cover!(r.is_some());
         kani::cover!(r.is_none() && p0.is_some() && p1.is_some());
@@ -853,24 +887,21 @@ const CL: usize = NS + 2 * NE;
 
 // list round trip on natively valid values (points are [k]B): encode_list then decode_list.
 
-//@harness verif_frost_@S@_list_roundtrip 180
+//@harness verif_frost_@S@_list_rt 350
 {
-    let b: [u8; 5 * NS] = kani::any();
+    let b: [u8; 4 * NS] = kani::any();
     let i0 = match nz_scalar(&b[0..NS]) { Some(s) => s, None => return };
     let i1 = match nz_scalar(&b[NS..2 * NS]) { Some(s) => s, None => return };
-    let i2 = match nz_scalar(&b[2 * NS..3 * NS]) { Some(s) => s, None => return };
-    let k0 = match nz_scalar(&b[3 * NS..4 * NS]) { Some(s) => s, None => return };
-    let k1 = match nz_scalar(&b[4 * NS..5 * NS]) { Some(s) => s, None => return };
+    let k0 = match nz_scalar(&b[2 * NS..3 * NS]) { Some(s) => s, None => return };
+    let k1 = match nz_scalar(&b[3 * NS..4 * NS]) { Some(s) => s, None => return };
     let (p0, p1) = (Point::mulgen(&k0), Point::mulgen(&k1));
     let l = [
         Commitment { ident: i0, hiding: p0, binding: p1 },
         Commitment { ident: i1, hiding: p1, binding: p0 },
-        Commitment { ident: i2, hiding: p1, binding: p1 },
     ];
     let asc01 = wire_lt(&b[0..NS], &b[NS..2 * NS]);
-    let asc12 = wire_lt(&b[NS..2 * NS], &b[2 * NS..3 * NS]);
     {
-        let e = Commitment::encode_list(&l[..2]);
+        let e = Commitment::encode_list(&l);
         assert!(e.len() == 2 * CL);
         assert!(bytes_eq(&e[..CL], &l[0].encode()) && bytes_eq(&e[CL..], &l[1].encode()));
         let r = Commitment::decode_list(&e);
@@ -883,23 +914,13 @@ const CL: usize = NS + 2 * NE;
         kani::cover!(r.is_none());
     }
     {
-        let e = Commitment::encode_list(&l[..3]);
-        assert!(e.len() == 3 * CL);
-        let r = Commitment::decode_list(&e);
-        assert!(r.is_some() == (asc01 && asc12));
-        if let Some(ref v) = r {
-            assert!(v.len() == 3 && seq(v[2].ident, i2) && peq(v[2].hiding, p1) && peq(v[2].binding, p1));
-        }
-        kani::cover!(r.is_some());
-    }
-    {
         let vl = [VSSElement(p0), VSSElement(p1), VSSElement(p0)];
         let e = VSSElement::encode_list(&vl[..2]);
         assert!(e.len() == 2 * NE);
         assert!(bytes_eq(&e[..NE], &point_encode(p0)) && bytes_eq(&e[NE..], &point_encode(p1)));
         let v = VSSElement::decode_list(&e).unwrap();
         assert!(v.len() == 2 && peq(v[0].0, p0) && peq(v[1].0, p1));
-        let e = VSSElement::encode_list(&vl[..3]);
+        let e = VSSElement::encode_list(&vl);
         let v = VSSElement::decode_list(&e).unwrap();
         assert!(v.len() == 3 && peq(v[2].0, p0));
     }
@@ -907,174 +928,196 @@ const CL: usize = NS + 2 * NE;
 
 // ================================================================== (b) totality
 //
-// Inputs are arbitrary values obtainable through the public API: nonces / signature shares /
-// group keys by decoding arbitrary bytes, commitments as `Nonce::get_commitment`, signer keys
-// as (identifier, [sk]B).  Kani's default checks (assert!, unwrap, bounds, overflow) are the
-// property; the calls must return.
+// Inputs are values obtainable through the public API: scalars (identifiers, shares) by
+// decoding arbitrary bytes, ONE group element P = [k]B shared by every point-valued field
+// (commitment points, signer key, group key): point arithmetic and the verification equation
+// are stubbed by arbitrary results, so the identity of the points has no influence on the
+// control flow of these functions, and one shared point keeps the formula small.
+// Kani's default checks (assert!, unwrap, bounds, overflow) are the property: the calls must
+// return.
 
-struct Party {
-    nonce: Nonce,
-    comm: Commitment,
-    share: SignerPrivateKeyShare,
-    spk: SignerPublicKey,
-    ss: SignatureShare,
-}
-
-/// draws all bytes first, then decodes; None if some scalar is not canonical / zero
-fn mk_party(nb: &[u8; 3 * NS], kb: &[u8; 2 * NS], zb: &[u8; 2 * NS], gpk: GroupPublicKey)
-    -> Option<Party>
-{
-    let nonce = Nonce::decode(nb)?;
-    let comm = nonce.get_commitment();
-    let kid = nz_scalar(&kb[0..NS])?;
-    let sk = nz_scalar(&kb[NS..2 * NS])?;
-    let pk = Point::mulgen(&sk);
-    let share = SignerPrivateKeyShare { ident: kid, sk: sk, pk: pk, group_pk: gpk };
-    let spk = share.get_public_key();
-    let ss = SignatureShare::decode(zb)?;
-    Some(Party { nonce, comm, share, spk, ss })
-}
-
-macro_rules! draw_parties {
-    ($gb:ident, $msg:ident, $nb0:ident, $kb0:ident, $zb0:ident, $nb1:ident, $kb1:ident, $zb1:ident) => {
-        let $gb: [u8; NS] = kani::any();
-        let $msg: [u8; 3] = kani::any();
-        let $nb0: [u8; 3 * NS] = kani::any();
-        let $kb0: [u8; 2 * NS] = kani::any();
-        let $zb0: [u8; 2 * NS] = kani::any();
-        let $nb1: [u8; 3 * NS] = kani::any();
-        let $kb1: [u8; 2 * NS] = kani::any();
-        let $zb1: [u8; 2 * NS] = kani::any();
-    };
+fn mk_gpk(p: Point) -> GroupPublicKey {
+    GroupPublicKey { pk: p, pk_enc: point_encode(p) }
 }
 
 // verify_signature_share on an ARBITRARY list of two commitments (any identifiers, any order).
 
-//@harness verif_frost_@S@_vshare_anylist 70
+//@harness verif_frost_@S@_vshare_anylist 180
 {
-    draw_parties!(gb, msg, nb0, kb0, zb0, nb1, kb1, zb1);
-    let gpk = match GroupPrivateKey::decode(&gb) { Some(g) => g.get_public_key(), None => return };
-    let a = match mk_party(&nb0, &kb0, &zb0, gpk) { Some(p) => p, None => return };
-    let b = match mk_party(&nb1, &kb1, &zb1, gpk) { Some(p) => p, None => return };
-    let list = [a.comm, b.comm];
-    let r = a.spk.verify_signature_share(a.ss, &list, gpk, &msg);
+    let kb: [u8; NS] = kani::any();
+    let ib: [u8; 3 * NS] = kani::any();
+    let zb: [u8; 2 * NS] = kani::any();
+    let msg: [u8; 3] = kani::any();
+    let k = match nz_scalar(&kb) { Some(s) => s, None => return };
+    let i0 = match nz_scalar(&ib[0..NS]) { Some(s) => s, None => return };
+    let i1 = match nz_scalar(&ib[NS..2 * NS]) { Some(s) => s, None => return };
+    let sid = match nz_scalar(&ib[2 * NS..3 * NS]) { Some(s) => s, None => return };
+    let ss = match SignatureShare::decode(&zb) { Some(s) => s, None => return };
+    let p = Point::mulgen(&k);
+    let list = [
+        Commitment { ident: i0, hiding: p, binding: p },
+        Commitment { ident: i1, hiding: p, binding: p },
+    ];
+    let spk = SignerPublicKey { ident: sid, pk: p };
+    let r = spk.verify_signature_share(ss, &list, mk_gpk(p), &msg);
     kani::cover!(r);
-    kani::cover!(!r);
 }
 
 // the same with the list precondition that `sign` and `decode_list` enforce (strictly
-// ascending identifiers): no panic at all.
+// ascending identifiers): no panic at all; a share for another identifier, or a signer absent
+// from the list, is rejected.
 
-//@harness verif_frost_@S@_vshare_sorted 70
+//@harness verif_frost_@S@_vshare_sorted 180
 {
-    draw_parties!(gb, msg, nb0, kb0, zb0, nb1, kb1, zb1);
-    let sel: bool = kani::any();
-    kani::assume(wire_lt(&nb0[0..NS], &nb1[0..NS]));
-    let gpk = match GroupPrivateKey::decode(&gb) { Some(g) => g.get_public_key(), None => return };
-    let a = match mk_party(&nb0, &kb0, &zb0, gpk) { Some(p) => p, None => return };
-    let b = match mk_party(&nb1, &kb1, &zb1, gpk) { Some(p) => p, None => return };
-    let list = [a.comm, b.comm];
-    let who = if sel { &a } else { &b };
-    let r = who.spk.verify_signature_share(who.ss, &list, gpk, &msg);
-    kani::cover!(r);
-    kani::cover!(!r);
-    kani::cover!(r && !sel);
-    // a share for another identifier, or a signer absent from the list, is rejected
-    if !seq(who.ss.ident, who.spk.ident) {
+    let kb: [u8; NS] = kani::any();
+    let ib: [u8; 3 * NS] = kani::any();
+    let zb: [u8; 2 * NS] = kani::any();
+    let msg: [u8; 3] = kani::any();
+    kani::assume(wire_lt(&ib[0..NS], &ib[NS..2 * NS]));
+    let k = match nz_scalar(&kb) { Some(s) => s, None => return };
+    let i0 = match nz_scalar(&ib[0..NS]) { Some(s) => s, None => return };
+    let i1 = match nz_scalar(&ib[NS..2 * NS]) { Some(s) => s, None => return };
+    let sid = match nz_scalar(&ib[2 * NS..3 * NS]) { Some(s) => s, None => return };
+    let ss = match SignatureShare::decode(&zb) { Some(s) => s, None => return };
+    let p = Point::mulgen(&k);
+    let list = [
+        Commitment { ident: i0, hiding: p, binding: p },
+        Commitment { ident: i1, hiding: p, binding: p },
+    ];
+    let spk = SignerPublicKey { ident: sid, pk: p };
+    let r = spk.verify_signature_share(ss, &list, mk_gpk(p), &msg);
+    kani::cover!(r && seq(sid, i1));
+    kani::cover!(!r && seq(sid, i0) && seq(ss.ident, sid));
+    if !seq(ss.ident, sid) {
         assert!(!r);
     }
-    if !seq(who.spk.ident, a.comm.ident) && !seq(who.spk.ident, b.comm.ident) {
+    if !seq(sid, i0) && !seq(sid, i1) {
         assert!(!r);
     }
 }
 
 // assemble_signature with the coordinator's own (sorted) list, arbitrary shares and keys.
 
-//@harness verif_frost_@S@_assemble_sorted 70
+//@harness verif_frost_@S@_assemble_sorted 180
 {
-    draw_parties!(gb, msg, nb0, kb0, zb0, nb1, kb1, zb1);
-    kani::assume(wire_lt(&nb0[0..NS], &nb1[0..NS]));
-    let gpk = match GroupPrivateKey::decode(&gb) { Some(g) => g.get_public_key(), None => return };
-    let a = match mk_party(&nb0, &kb0, &zb0, gpk) { Some(p) => p, None => return };
-    let b = match mk_party(&nb1, &kb1, &zb1, gpk) { Some(p) => p, None => return };
-    let co = Coordinator::new(2, gpk).unwrap();
-    let list = [a.comm, b.comm];
-    let r = co.assemble_signature(&[b.ss, a.ss], &list, &[a.spk, b.spk], &msg);
+    let kb: [u8; NS] = kani::any();
+    let ib: [u8; 4 * NS] = kani::any();
+    let zb: [u8; 4 * NS] = kani::any();
+    let msg: [u8; 3] = kani::any();
+    kani::assume(wire_lt(&ib[0..NS], &ib[NS..2 * NS]));
+    let k = match nz_scalar(&kb) { Some(s) => s, None => return };
+    let i0 = match nz_scalar(&ib[0..NS]) { Some(s) => s, None => return };
+    let i1 = match nz_scalar(&ib[NS..2 * NS]) { Some(s) => s, None => return };
+    let s0 = match nz_scalar(&ib[2 * NS..3 * NS]) { Some(s) => s, None => return };
+    let s1 = match nz_scalar(&ib[3 * NS..4 * NS]) { Some(s) => s, None => return };
+    let ss0 = match SignatureShare::decode(&zb[0..2 * NS]) { Some(s) => s, None => return };
+    let ss1 = match SignatureShare::decode(&zb[2 * NS..4 * NS]) { Some(s) => s, None => return };
+    let p = Point::mulgen(&k);
+    let list = [
+        Commitment { ident: i0, hiding: p, binding: p },
+        Commitment { ident: i1, hiding: p, binding: p },
+    ];
+    let spks = [SignerPublicKey { ident: s0, pk: p }, SignerPublicKey { ident: s1, pk: p }];
+    let co = Coordinator::new(2, mk_gpk(p)).unwrap();
+    let r = co.assemble_signature(&[ss0, ss1], &list, &spks, &msg);
     kani::cover!(r.is_some());
-    kani::cover!(r.is_none());
     // a missing share or a missing key makes it fail
-    let have_ss = (seq(a.ss.ident, a.comm.ident) || seq(b.ss.ident, a.comm.ident))
-        && (seq(a.ss.ident, b.comm.ident) || seq(b.ss.ident, b.comm.ident));
-    if !have_ss {
+    let have_ss = (seq(ss0.ident, i0) || seq(ss1.ident, i0)) && (seq(ss0.ident, i1) || seq(ss1.ident, i1));
+    let have_pk = (seq(s0, i0) || seq(s1, i0)) && (seq(s0, i1) || seq(s1, i1));
+    kani::cover!(r.is_none() && have_ss && have_pk);
+    if !have_ss || !have_pk {
         assert!(r.is_none());
     }
-    assert!(Coordinator::new(0, gpk).is_none() && Coordinator::new(1, gpk).is_none());
+    assert!(Coordinator::new(0, mk_gpk(p)).is_none() && Coordinator::new(1, mk_gpk(p)).is_none());
 }
 
 // assemble_signature with an arbitrary list of two commitments.
 
-//@harness verif_frost_@S@_assemble_anylist 70
+//@harness verif_frost_@S@_assemble_anylist 180
 {
-    draw_parties!(gb, msg, nb0, kb0, zb0, nb1, kb1, zb1);
-    let gpk = match GroupPrivateKey::decode(&gb) { Some(g) => g.get_public_key(), None => return };
-    let a = match mk_party(&nb0, &kb0, &zb0, gpk) { Some(p) => p, None => return };
-    let b = match mk_party(&nb1, &kb1, &zb1, gpk) { Some(p) => p, None => return };
-    let co = Coordinator::new(2, gpk).unwrap();
-    let list = [a.comm, b.comm];
-    let r = co.assemble_signature(&[b.ss, a.ss], &list, &[a.spk, b.spk], &msg);
+    let kb: [u8; NS] = kani::any();
+    let ib: [u8; 2 * NS] = kani::any();
+    let zb: [u8; 4 * NS] = kani::any();
+    let msg: [u8; 3] = kani::any();
+    let k = match nz_scalar(&kb) { Some(s) => s, None => return };
+    let i0 = match nz_scalar(&ib[0..NS]) { Some(s) => s, None => return };
+    let i1 = match nz_scalar(&ib[NS..2 * NS]) { Some(s) => s, None => return };
+    let ss0 = match SignatureShare::decode(&zb[0..2 * NS]) { Some(s) => s, None => return };
+    let ss1 = match SignatureShare::decode(&zb[2 * NS..4 * NS]) { Some(s) => s, None => return };
+    let p = Point::mulgen(&k);
+    let list = [
+        Commitment { ident: i0, hiding: p, binding: p },
+        Commitment { ident: i1, hiding: p, binding: p },
+    ];
+    let spks = [SignerPublicKey { ident: i0, pk: p }, SignerPublicKey { ident: i1, pk: p }];
+    let co = Coordinator::new(2, mk_gpk(p)).unwrap();
+    let r = co.assemble_signature(&[ss0, ss1], &list, &spks, &msg);
     kani::cover!(r.is_some());
-    kani::cover!(r.is_none());
 }
 
 // degenerate list lengths 0 and 1 for both verification entry points.
 
-//@harness verif_frost_@S@_verify_shortlists 70
+//@harness verif_frost_@S@_verify_shortlists 180
 {
-    draw_parties!(gb, msg, nb0, kb0, zb0, nb1, kb1, zb1);
-    let gpk = match GroupPrivateKey::decode(&gb) { Some(g) => g.get_public_key(), None => return };
-    let a = match mk_party(&nb0, &kb0, &zb0, gpk) { Some(p) => p, None => return };
-    let b = match mk_party(&nb1, &kb1, &zb1, gpk) { Some(p) => p, None => return };
-    let co = Coordinator::new(2, gpk).unwrap();
-    let list = [a.comm];
-    assert!(!a.spk.verify_signature_share(a.ss, &list[..0], gpk, &msg));
-    let r1 = b.spk.verify_signature_share(b.ss, &list, gpk, &msg);
-    kani::cover!(r1);
-    let r2 = co.assemble_signature(&[a.ss, b.ss], &list[..0], &[a.spk, b.spk], &msg);
-    let r3 = co.assemble_signature(&[a.ss, b.ss], &list, &[a.spk, b.spk], &msg);
+    let kb: [u8; NS] = kani::any();
+    let ib: [u8; 2 * NS] = kani::any();
+    let zb: [u8; 2 * NS] = kani::any();
+    let msg: [u8; 3] = kani::any();
+    let k = match nz_scalar(&kb) { Some(s) => s, None => return };
+    let i0 = match nz_scalar(&ib[0..NS]) { Some(s) => s, None => return };
+    let sid = match nz_scalar(&ib[NS..2 * NS]) { Some(s) => s, None => return };
+    let ss = match SignatureShare::decode(&zb) { Some(s) => s, None => return };
+    let p = Point::mulgen(&k);
+    let list = [Commitment { ident: i0, hiding: p, binding: p }];
+    let spk = SignerPublicKey { ident: sid, pk: p };
+    let co = Coordinator::new(2, mk_gpk(p)).unwrap();
+    assert!(!spk.verify_signature_share(ss, &list[..0], mk_gpk(p), &msg));
+    let r1 = spk.verify_signature_share(ss, &list, mk_gpk(p), &msg);
+    let r2 = co.assemble_signature(&[ss], &list[..0], &[spk], &msg);
+    let r3 = co.assemble_signature(&[ss], &list, &[spk], &msg);
     let r4 = co.assemble_signature(&[], &list, &[], &msg);
     assert!(r4.is_none());
-    kani::cover!(r2.is_some());
-    kani::cover!(r3.is_some());
-    kani::cover!(r3.is_none());
+    kani::cover!(r1 && r2.is_some() && r3.is_some());
 }
 
 // sign: arbitrary share, nonce (with its own commitment, the documented precondition),
-// arbitrary list of 0..2 commitments.
+// arbitrary list of 0..2 commitments whose points are or are not the signer's.
 
-//@harness verif_frost_@S@_sign_total 70
+//@harness verif_frost_@S@_sign_total 180
 {
-    draw_parties!(gb, msg, nb0, kb0, zb0, nb1, kb1, zb1);
+    let kb: [u8; 2 * NS] = kani::any();
+    let ib: [u8; 3 * NS] = kani::any();
+    let nb: [u8; 3 * NS] = kani::any();
+    let msg: [u8; 3] = kani::any();
     let sel: u8 = kani::any();
-    let gpk = match GroupPrivateKey::decode(&gb) { Some(g) => g.get_public_key(), None => return };
-    let a = match mk_party(&nb0, &kb0, &zb0, gpk) { Some(p) => p, None => return };
-    let b = match mk_party(&nb1, &kb1, &zb1, gpk) { Some(p) => p, None => return };
-    let list = [a.comm, b.comm];
-    // the signer uses its own key share with nonce a or nonce b
-    let (nonce, comm) = if (sel & 1) != 0 { (a.nonce, a.comm) } else { (b.nonce, b.comm) };
-    let share = if (sel & 2) != 0 { a.share } else { b.share };
+    let k = match nz_scalar(&kb[0..NS]) { Some(s) => s, None => return };
+    let sk = match nz_scalar(&kb[NS..2 * NS]) { Some(s) => s, None => return };
+    let i0 = match nz_scalar(&ib[0..NS]) { Some(s) => s, None => return };
+    let i1 = match nz_scalar(&ib[NS..2 * NS]) { Some(s) => s, None => return };
+    let sid = match nz_scalar(&ib[2 * NS..3 * NS]) { Some(s) => s, None => return };
+    let nonce = match Nonce::decode(&nb) { Some(n) => n, None => return };
+    let comm = nonce.get_commitment();
+    let p = Point::mulgen(&k);
+    // list entries carry either the signer's commitment points or the other point
+    let (h0, b0) = if (sel & 1) != 0 { (comm.hiding, comm.binding) } else { (p, p) };
+    let (h1, b1) = if (sel & 2) != 0 { (comm.hiding, comm.binding) } else { (p, comm.binding) };
+    let list = [
+        Commitment { ident: i0, hiding: h0, binding: b0 },
+        Commitment { ident: i1, hiding: h1, binding: b1 },
+    ];
+    let share = SignerPrivateKeyShare { ident: sid, sk: sk, pk: p, group_pk: mk_gpk(p) };
     let r = share.sign(nonce, comm, &msg, &list);
-    let asc = wire_lt(&nb0[0..NS], &nb1[0..NS]);
+    let asc = wire_lt(&ib[0..NS], &ib[NS..2 * NS]);
     kani::cover!(r.is_some());
-    kani::cover!(r.is_none() && asc);
-    kani::cover!(r.is_none() && !asc);
+    kani::cover!(r.is_none() && asc && seq(sid, i1));
     if !asc {
         assert!(r.is_none());
     }
-    if !seq(share.ident, a.comm.ident) && !seq(share.ident, b.comm.ident) {
+    if !seq(sid, i0) && !seq(sid, i1) {
         assert!(r.is_none());
     }
     if let Some(s) = r {
-        assert!(seq(s.ident, share.ident));
+        assert!(seq(s.ident, sid));
     }
     assert!(share.sign(nonce, comm, &msg, &list[..1]).is_none());
     assert!(share.sign(nonce, comm, &msg, &list[..0]).is_none());
@@ -1082,41 +1125,36 @@ macro_rules! draw_parties {
 
 // verify_split on VSS commitments of 1..3 elements: returns, no panic.
 
-//@harness verif_frost_@S@_vsplit_total 70
+//@harness verif_frost_@S@_vsplit_total 180
 {
-    let gb: [u8; NS] = kani::any();
-    let kb: [u8; 2 * NS] = kani::any();
-    let vb: [u8; 3 * NS] = kani::any();
-    let gpk = match GroupPrivateKey::decode(&gb) { Some(g) => g.get_public_key(), None => return };
+    let kb: [u8; 4 * NS] = kani::any();
     let kid = match nz_scalar(&kb[0..NS]) { Some(s) => s, None => return };
     let sk = match nz_scalar(&kb[NS..2 * NS]) { Some(s) => s, None => return };
-    let v0 = match nz_scalar(&vb[0..NS]) { Some(s) => s, None => return };
-    let v1 = match nz_scalar(&vb[NS..2 * NS]) { Some(s) => s, None => return };
-    let v2 = match nz_scalar(&vb[2 * NS..3 * NS]) { Some(s) => s, None => return };
-    let share = SignerPrivateKeyShare { ident: kid, sk: sk, pk: Point::mulgen(&sk), group_pk: gpk };
-    let vss = [VSSElement(Point::mulgen(&v0)), VSSElement(Point::mulgen(&v1)), VSSElement(Point::mulgen(&v2))];
+    let v0 = match nz_scalar(&kb[2 * NS..3 * NS]) { Some(s) => s, None => return };
+    let v1 = match nz_scalar(&kb[3 * NS..4 * NS]) { Some(s) => s, None => return };
+    let p = Point::mulgen(&sk);
+    let q0 = Point::mulgen(&v0);
+    let q1 = Point::mulgen(&v1);
+    let share = SignerPrivateKeyShare { ident: kid, sk: sk, pk: p, group_pk: mk_gpk(q0) };
+    let vss = [VSSElement(q0), VSSElement(q1), VSSElement(q0)];
     let r1 = share.verify_split(&vss[..1]);
     let r2 = share.verify_split(&vss[..2]);
     let r3 = share.verify_split(&vss[..3]);
-    kani::cover!(r1);
-    kani::cover!(!r1);
-    kani::cover!(r2);
-    kani::cover!(!r2);
-    kani::cover!(r3);
+    kani::cover!(r1 && r2 && !r3);
+    kani::cover!(!r1 && r3);
     // with a single element the answer is pk == vss[0]
-    assert!(r1 == peq(share.pk, vss[0].0));
+    assert!(r1 == peq(p, q0));
 }
 
 // verify_split on the EMPTY VSS commitment.
 
-//@harness verif_frost_@S@_vsplit_empty 70
+//@harness verif_frost_@S@_vsplit_empty 180
 {
-    let gb: [u8; NS] = kani::any();
     let kb: [u8; 2 * NS] = kani::any();
-    let gpk = match GroupPrivateKey::decode(&gb) { Some(g) => g.get_public_key(), None => return };
     let kid = match nz_scalar(&kb[0..NS]) { Some(s) => s, None => return };
     let sk = match nz_scalar(&kb[NS..2 * NS]) { Some(s) => s, None => return };
-    let share = SignerPrivateKeyShare { ident: kid, sk: sk, pk: Point::mulgen(&sk), group_pk: gpk };
+    let p = Point::mulgen(&sk);
+    let share = SignerPrivateKeyShare { ident: kid, sk: sk, pk: p, group_pk: mk_gpk(p) };
     let vss: [VSSElement; 0] = [];
     let r = share.verify_split(&vss);
     kani::cover!(!r);
@@ -1124,45 +1162,48 @@ macro_rules! draw_parties {
 
 // ================================================================== (c) Coordinator::choose
 //
-// min_signers = 2, up to 3 commitments with arbitrary identifiers (duplicates allowed):
-// result strictly ascending (hence duplicate-free), of size 2, each element one of the inputs
-// (first occurrence of its identifier), or None iff fewer than 2 distinct identifiers.
+// min_signers = 2, up to 3 commitments with arbitrary identifiers (duplicates allowed) and
+// distinguishable points: result strictly ascending (hence duplicate-free), of size 2, each
+// element one of the inputs (the first input and the first input with a different
+// identifier), or None iff fewer than 2 distinct identifiers.
 
 fn same_comm(x: &Commitment, y: &Commitment) -> bool {
     seq(x.ident, y.ident) && peq(x.hiding, y.hiding) && peq(x.binding, y.binding)
 }
 
-//@harness verif_frost_@S@_choose2 70
+//@harness verif_frost_@S@_choose2 180
 {
-    let gb: [u8; NS] = kani::any();
-    let nb0: [u8; 3 * NS] = kani::any();
-    let nb1: [u8; 3 * NS] = kani::any();
-    let nb2: [u8; 3 * NS] = kani::any();
-    let gpk = match GroupPrivateKey::decode(&gb) { Some(g) => g.get_public_key(), None => return };
-    let c0 = match Nonce::decode(&nb0) { Some(n) => n.get_commitment(), None => return };
-    let c1 = match Nonce::decode(&nb1) { Some(n) => n.get_commitment(), None => return };
-    let c2 = match Nonce::decode(&nb2) { Some(n) => n.get_commitment(), None => return };
-    let co = Coordinator::new(2, gpk).unwrap();
+    let kb: [u8; 2 * NS] = kani::any();
+    let ib: [u8; 3 * NS] = kani::any();
+    let k0 = match nz_scalar(&kb[0..NS]) { Some(s) => s, None => return };
+    let k1 = match nz_scalar(&kb[NS..2 * NS]) { Some(s) => s, None => return };
+    let (b0, b1, b2) = (&ib[0..NS], &ib[NS..2 * NS], &ib[2 * NS..3 * NS]);
+    let i0 = match nz_scalar(b0) { Some(s) => s, None => return };
+    let i1 = match nz_scalar(b1) { Some(s) => s, None => return };
+    let i2 = match nz_scalar(b2) { Some(s) => s, None => return };
+    let (p, q) = (Point::mulgen(&k0), Point::mulgen(&k1));
+    let c0 = Commitment { ident: i0, hiding: p, binding: p };
+    let c1 = Commitment { ident: i1, hiding: p, binding: q };
+    let c2 = Commitment { ident: i2, hiding: q, binding: p };
+    let co = Coordinator::new(2, mk_gpk(p)).unwrap();
     let comms = [c0, c1, c2];
-    let (i0, i1, i2) = (&nb0[0..NS], &nb1[0..NS], &nb2[0..NS]);
     assert!(co.choose(&comms[..0]).is_none());
     assert!(co.choose(&comms[..1]).is_none());
     {
         let r = co.choose(&comms[..2]);
-        assert!(r.is_some() == !wire_eq(i0, i1));
+        assert!(r.is_some() == !wire_eq(b0, b1));
         if let Some(ref v) = r {
             assert!(v.len() == 2);
-            if wire_lt(i0, i1) {
+            if wire_lt(b0, b1) {
                 assert!(same_comm(&v[0], &c0) && same_comm(&v[1], &c1));
             } else {
                 assert!(same_comm(&v[0], &c1) && same_comm(&v[1], &c0));
             }
         }
-        kani::cover!(r.is_none());
     }
     {
-        let r = co.choose(&comms[..3]);
-        let distinct = !(wire_eq(i0, i1) && wire_eq(i0, i2));
+        let r = co.choose(&comms);
+        let distinct = !(wire_eq(b0, b1) && wire_eq(b0, b2));
         assert!(r.is_some() == distinct);
         if let Some(ref v) = r {
             assert!(v.len() == 2);
@@ -1171,12 +1212,11 @@ fn same_comm(x: &Commitment, y: &Commitment) -> bool {
             let e1 = scalar_encode(v[1].ident);
             assert!(wire_lt(&e0, &e1));
             // the first input is always kept, together with the first input whose identifier differs
-            let other = if !wire_eq(i0, i1) { &c1 } else { &c2 };
+            let other = if !wire_eq(b0, b1) { &c1 } else { &c2 };
             assert!((same_comm(&v[0], &c0) && same_comm(&v[1], other))
                 || (same_comm(&v[1], &c0) && same_comm(&v[0], other)));
         }
         kani::cover!(r.is_none());
-        kani::cover!(r.is_some() && wire_eq(i0, i1));
-        kani::cover!(r.is_some() && wire_lt(i1, i0));
+        kani::cover!(r.is_some() && wire_eq(b0, b1) && wire_lt(b2, b0));
     }
 }
